@@ -336,13 +336,27 @@ def analyse(run, rid, prog, func, iterate_rank, step_exprs=("self.dt", "dt"), fr
         after = body[body.index(loop) + 1:] if body else []
         post = None
         j = 0
-        if after and isinstance(after[0], ast.Assign) and norm(after[0].targets[0]) == x2n and \
-                isinstance(after[0].value, ast.Call) and \
-                any(isinstance(a, ast.Name) and a.id == x2n for a in after[0].value.args):
+        def _post_map(st):
+            return isinstance(st, ast.Assign) and norm(st.targets[0]) == x2n and isinstance(st.value, ast.Call) and \
+                any(isinstance(a, ast.Name) and a.id == x2n for a in st.value.args)
+        if after and _post_map(after[0]):
             post = norm(after[0].value.func)
+            j = 1
+        elif after and isinstance(after[0], ast.If) and not after[0].orelse and len(after[0].body) == 1 \
+                and _post_map(after[0].body[0]) \
+                and not any(isinstance(x, ast.Name) and x.id in (x1n, x2n) for x in ast.walk(after[0].test)):
+            # the post-step map is applied only when the object has the component it belongs to
+            post = "if %s: %s" % (norm(after[0].test), norm(after[0].body[0].value.func))
             j = 1
         ok = len(after) > j and isinstance(after[j], ast.Assign) and norm(after[j].targets[0]) == x1n \
             and norm(after[j].value) == x2n
+        # nothing may change the accumulator or the iterate between the restart and the next expansion:
+        # the next sub-step must start from the value that is stored
+        if ok:
+            for st in after[j + 1:]:
+                for x in ast.walk(st):
+                    if isinstance(x, ast.Name) and isinstance(x.ctx, ast.Store) and x.id in (x1n, x2n):
+                        ok = False
         ob(ok, "restart", "directly after the expansion loop the iterate must be restarted from the "
                           "accumulator (%s = %s), optionally after one post-step map" % (x1n, x2n),
            sample={"loop": construct, "post_step_map": post})
